@@ -2057,8 +2057,13 @@ class Cluster(shapes.Shape):
         # duplicates) is not trustable. We lower the precision to make
         # it more trustable but maybe calculating the cluster vertexes
         # like this is not the best way.
-        vertexes = frozenset(vertexes.round(12))
-        vertexes = np.fromiter(vertexes, dtype=complex)
+        #
+        # The rounding is done regarding the cluster position and relative
+        # to the cell radius, so that it does not depend on the scale of
+        # the cluster.
+        scale = self._cell_radius
+        vertexes = frozenset(((vertexes - self.pos) / scale).round(9))
+        vertexes = np.fromiter(vertexes, dtype=complex) * scale + self.pos
 
         # In order to use these vertices for plotting, we need them to be
         # in order (lowest angle to highest)
